@@ -491,7 +491,7 @@ def run(tier, seed):
         "transitions": sum(t.generated for t in tl.values()) + cov.get("table_states", 0),
         "traces_validated_against_impl": n_parse_cmp + n_rt + cov.get("table_records", 0),
         "evaluations": len(cases), "distinct_nontrivial": nontriv,
-        "exhaustive": True,
+        "exhaustive": thorough,     # quick: the model and the parse stage are exhaustive, the run-time stage samples
         "rule": "cases = terminal states of spec/PyLiteral.tla: all literals of <= 1 atom (102 atoms x 6 prefix classes x 4 quote kinds, 10 prefix "
                 "spellings x core atoms), <= 2 atoms over the core alphabet (39) x 5 prefix classes x 2 quote kinds%s, two adjacent literals over the mini "
                 "alphabet (25 prefix pairs), %slong literals x^k unit^n (15 units, k 0..3, n around 2000/4000/65536).  Distinct by (text, kind); "
